@@ -39,6 +39,11 @@ COUNTERS = ("accessible", "tuned", "failed")
 PARSE_DECLS = {"tinycss2.parse_declaration_list", "tinycss2.parser.parse_declaration_list", "tinycss2.parse_blocks_contents", "tinycss2.parser.parse_blocks_contents"}
 
 
+def node_stores_of(node):
+    from sa.guards import node_stores
+    return node_stores(node)
+
+
 def counter_of(node):
     a = node.ast
     if node.kind == "stmt" and isinstance(a, ast.AugAssign) and isinstance(a.op, ast.Add) and isinstance(a.target, ast.Subscript) \
@@ -101,6 +106,20 @@ def run(project, chk):
     cc = color_conds[0]
 
     # ------------------------------------------------------------ X1
+    for nid in counters:
+        a = cfg.nodes[nid].ast
+        chk.check(isinstance(a.value, ast.Constant) and a.value.value == 1, "X1", fi.short, norm_text(a), project.loc(m, a), "a counter is incremented by exactly one per rule", how="`+= 1`",
+                  message=f"the counter is incremented by {norm_text(a.value)}, not by 1: the summary does not count rules")
+    # X0: every local is assigned before it is read, on all paths (a rule shape the tests never exercise must not hit an unbound name)
+    chk.rule("X0", "definite assignment: no path through the rule processing / main reads a local that was not assigned on that path")
+    from sa.defuse import possibly_unbound
+    for f0, c0 in ((fi, cfg),):
+        pu = possibly_unbound(c0, f0.node, f0.params())
+        for node0, name0 in pu:
+            chk.fail("X0", f0.short, f"{name0} in {norm_text(node0.ast)[:60]}", project.loc(f0.module, node0.ast), f"`{name0}` can be read before it is assigned on some path (e.g. a rule without the declaration that sets it): the rule processing raises instead of classifying the rule")
+        if not pu:
+            chk.ok("X0", f"{project.loc(f0.module, f0.node)} {f0.short}", "every local is definitely assigned before use", "must-assigned dataflow over the CFG")
+
     def count_flow(with_exc: bool):
         def transfer(node, state):
             if node.id == loop["bind"]:
@@ -301,6 +320,25 @@ def run(project, chk):
             chk.check(not bad, "X3", fi.short, norm_text(node.ast), project.loc(m, node.ast), f"no write precedes a rule being counted '{k}' (rules not adjusted are left unchanged)", how="no normal path from a write node to this increment within the iteration",
                       message=f"a declaration can be rewritten on a path that then counts the rule as '{k}'")
 
+    # ------------------------------------------------------------ X8: rules needing attention are listed by selector
+    chk.rule("X8", "every path that counts a rule as 'failed' appends a record with the rule's selector to failed_details")
+    fail_appends = set()
+    for node in cfg.nodes:
+        for e in node_exprs(node):
+            for c in ast.walk(e):
+                if isinstance(c, ast.Call) and isinstance(c.func, ast.Attribute) and c.func.attr == "append" and isinstance(c.func.value, ast.Subscript) and isinstance(c.func.value.slice, ast.Constant) and c.func.value.slice.value == "failed_details":
+                    o = org.of(node.id, c.args[0]) if c.args else ("expr", "?")
+                    rec = dict((k[1], v) for k, v in o[1] if k[0] == "const") if o[0] == "dict" else {}
+                    sel = rec.get("selector")
+                    if sel is not None and sel[0] == "call" and sel[1] == f"{CLI}.serialize_prelude":
+                        fail_appends.add(node.id)
+    for nid, k in counters.items():
+        if k == "failed":
+            r = reach_avoiding(nid, fail_appends)
+            node = cfg.nodes[nid]
+            chk.check(loop["next"] not in r, "X8", fi.short, norm_text(node.ast), project.loc(m, node.ast), "a rule counted as needing attention is recorded with its selector", how="the end of the iteration is unreachable from this increment without passing a failed_details.append carrying the selector",
+                      message="a rule can be counted as 'failed' without being listed (no failed_details record with its selector on some path)")
+
     # ------------------------------------------------------------ X4 write survival
     # (a) inside process_nodes_recursive: an updated declaration's list is serialised back into the node
     content_writes = [n for n in cfg.nodes if n.kind == "stmt" and isinstance(n.ast, ast.Assign) and any(isinstance(t, ast.Attribute) and t.attr == "content" for t in n.ast.targets)]
@@ -423,6 +461,19 @@ def run(project, chk):
         lp, x, has_break = picked[prop]
         chk.check(not has_break and isinstance(x.left, ast.Attribute) and x.left.attr in ("name", "lower_name"), "X6", fi.short, norm_text(x), project.loc(m, x), f"the last `{prop}` declaration of the rule wins",
                   how="overwrite idiom in a loop over all declarations, no break", message=f"the scan for `{prop}` stops early or does not compare the declaration name: an earlier declaration wins")
+    for prop in ("color", "background-color"):
+        if prop not in picked:
+            continue
+        lp2, x, _hb = picked[prop]
+        # the assignment guarded by this comparison
+        tgt_nodes = [n for n in cfg.nodes if n.kind == "stmt" and isinstance(n.ast, ast.Assign) and n.id in lp2["body"] and isinstance(n.ast.value, ast.Name) and isinstance(lp2["stmt"].target, ast.Name) and n.ast.value.id == lp2["stmt"].target.id
+                     and (norm_text(x), True) in common_literals(G.get(n.id))]
+        chk.check(len(tgt_nodes) == 1, "X6", fi.short, norm_text(x), project.loc(m, x), f"the declaration kept for `{prop}` is the loop's current declaration, stored exactly where its name equals {prop!r}", how=f"{len(tgt_nodes)} assignment(s) of the loop variable under `{norm_text(x)}`",
+                  message=f"no assignment (or several) of the scanned declaration sits under `{norm_text(x)}` being true: the wrong declaration (or none) is taken as the rule's {prop}")
+        if len(tgt_nodes) == 1:
+            var = tgt_nodes[0].ast.targets[0].id
+            others = [n for n in cfg.nodes if n.kind == "stmt" and n.id in body and var in node_stores_of(n) and n.id != tgt_nodes[0].id and not (isinstance(n.ast, ast.Assign) and isinstance(n.ast.value, ast.Constant) and n.ast.value.value is None and n.id not in lp2["body"])]
+            chk.check(not others, "X6", fi.short, f"{var}", project.loc(m, x), f"{var} is only ever None or the matching declaration", how="store census inside the rule iteration", message=f"{var} is also assigned at line(s) {[n.lineno for n in others]}")
     # the pair's operands: resolved text / background with fallback to default_bg
     for node in cfg.nodes:
         for e in node_exprs(node):
